@@ -1,9 +1,9 @@
 SPECIFICATION TableSpec
 CONSTANTS
  BNErrs = {"bnval", "bnptr"}
- Variant = "count_dups"
- MCTypes = {"attester"}
- MCMain = "attester"
+ Variant = "coded"
+ MCTypes = {"randao", "proposer"}
+ MCMain = "randao"
  MCIncl = {"proposer"}
  MCPKs = {"a", "b"}
  MCErrs = {"nil", "other"}
